@@ -6,6 +6,7 @@ import Knx.TunnelText
 import Knx.RouterText
 import Knx.Sock
 import Knx.CloseOnce
+import Knx.Buf
 
 namespace Driver
 open Knx Knx.Text
@@ -62,6 +63,24 @@ def runWire (op : String) (args : List String) : Option String :=
     match encFrame v with
     | some b => pure ("ok " ++ hex b)
     | none => pure "nopack"
+  | "encw", spec :: ts => do
+    -- the frame written INTO a prefilled buffer (Knx.Buf: the Pack procedures statement by statement)
+    let (v, rest) ← pService ts
+    if !rest.isEmpty then none
+    let buf ← parseTail spec
+    match Knx.Buf.packFrame v with
+    | some p =>
+      match p buf with
+      | some b => pure ("ok " ++ hex b)
+      | none => pure "panic"
+    | none => pure "nopack"
+  | "enccw", spec :: ts => do
+    let (m, rest) ← pCemi ts
+    if !rest.isEmpty then none
+    let buf ← parseTail spec
+    match Knx.Buf.packCemi m buf with
+    | some b => pure ("ok " ++ hex b)
+    | none => pure "panic"
   | "encc", ts => do
     let (m, rest) ← pCemi ts
     if !rest.isEmpty then none
